@@ -152,4 +152,12 @@ PROPS = {
         "level_note": "Trusted: Coq kernel; Arc; the global counters NUM_LIVE_CHUNKS / NUM_LIVE_BYTES (single-threaded harness process); the system allocator and RSS are not modelled.",
         "assumptions": ["single-threaded harness process, counters start from a recorded baseline"],
     },
+    "C20": {
+        "families": ["iovw"],
+        "n": {"quick": {"iovw": 1200}, "thorough": {"iovw": 25000}},
+        "rule": IOV_RULE + "; for C20 every history has several objects, clones are taken when no placeholder is pending, and either side may be dropped first",
+        "level_text": "Theorems C20_step / C20_history / C20_clone_independent / C20_take: in the world model (several iovecs over one mutable heap of arena chunks; slices are pointers; copies are written in place at the bump pointer of the writer's own cache, merging with an adjacent last slice or opening a new chunk; a clone copies pointers and has no cache; a backfill overwrites one of its owner's pending placeholders) every valid operation leaves the bytes of every object it does not target unchanged and preserves the frame invariant (caches own distinct chunks, every slice ends at or below the bump pointer of the cache owning its chunk) and the placeholder invariant (a pending placeholder lies inside a slice of its owner and is disjoint from every slice of every other object); hence, for every history after a hole-free clone, operations on the original (or anything else) never change the clone and vice versa; take() moves the whole state. Tied to the code by world histories with clone / take / drop: the value-level model predicts every object's contents after every operation, and the check verifies on the implementation that untargeted objects do not change and that the frame invariant holds on the observed slices and caches (hook).",
+        "level_note": "Trusted: Coq kernel; the reduced world model (fixed chunk capacity, arena slices only; borrowed memory is immutable while borrowed, by the borrow checker); run-time aliasing rules of Rust are outside the model (see C05).",
+        "assumptions": ["clones are taken only when no placeholder is pending (the property's precondition; a clone shares the memory a later backfill of the original writes to)"],
+    },
 }
